@@ -196,6 +196,7 @@ class _RequestsShim(object):
 
 # ----------------------------------------------------------------- fake connection
 SESSION_HANG_S = 60
+SESSION_LIMIT_S = 1800
 _SESSION_NO = itertools.count(1)
 
 
@@ -418,15 +419,21 @@ class Rig(object):
                 th.start()
                 # hung = alive and NO progress (no byte received, nothing sent, no iteration finished) for
                 # SESSION_HANG_S seconds - a slow machine makes progress slowly, a blocked thread makes none
-                mark, since = None, time.time()
+                # (computing counts as progress too: decoding a 2 MB frame byte by byte on a loaded machine sends and
+                # receives nothing for minutes - thorough-tier false alarm of round 10 - so CPU time consumed by this
+                # process, whose other threads wait, is part of the mark; a session that computes for ever is caught by
+                # the absolute limit)
+                mark, since, t0 = None, time.time(), time.time()
                 while True:
                     th.join(2)
                     if not th.is_alive():
                         break
-                    now_mark = (len(conn.recv_sizes), len(conn.out), len(its))
+                    now_mark = (len(conn.recv_sizes), len(conn.out), len(its), int(time.process_time() / 3))
                     if now_mark != mark:
                         mark, since = now_mark, time.time()
                     elif time.time() - since > SESSION_HANG_S:
+                        break
+                    if time.time() - t0 > SESSION_LIMIT_S:
                         break
                 if th.is_alive():
                     escaped = "SessionHung: the session thread made no progress for %d s (frames answered so far: %d)" \
